@@ -34,7 +34,9 @@ RULE = (
     "one run = one tree: a collinear chain of 2-12 nodes or a root with two arms on opposite sides (radii in "
     "[0.1, 6], each compartment length = max(end radii) x factor in {1 exactly, 1.001, 1.2, 1.5, 1.9, 2.5, 6}, so "
     "neighbouring spheres are tangent, overlapping or apart; the line has a special exact or a generic direction "
-    "and an offset; admissibility - non-adjacent solids have disjoint axial extent - is verified on the model and "
+    "and an offset; 15% of the collinear trees are small (scale 1/16 or 1/64) and far from the origin "
+    "(coordinates of thousands, axis-parallel so that float32 storage keeps them exactly collinear); the feature "
+    "API is called on a fresh extractor or on one extractor shared by all levels and schedules of the run; admissibility - non-adjacent solids have disjoint axial extent - is verified on the model and "
     "the spacing widened until it holds), or an arbitrary tree (any shape, <= 40 nodes) for levels 1 and 2. "
     "Levels: integers 1-9 and the names low/middle/high through get_volume and extract_feature(tree).get('volume'); "
     "a two-armed root is evaluated at level >= 5 (Monte-Carlo term at the branching node, ~1 s) only in runs "
@@ -117,6 +119,14 @@ def generate(rng: Prng, tier: str) -> dict:
         p["axis"] = gen_axis(w)
         p["offset"] = w.choice([[0.0, 0.0, 0.0], [8.0, -16.0, 32.0]]) if w.chance(0.5) else \
             [round(w.uniform(-300, 300), 2) for _ in range(3)]
+        p["scale"] = 1.0
+        if w.chance(0.15):
+            # a small tree far from the origin: compartments much shorter than their coordinates. The line is
+            # axis-parallel and the offset exactly representable, so float32 storage keeps it exactly collinear.
+            p["axis"] = w.choice([[1.0, 0.0, 0.0], [0.0, 1.0, 0.0], [0.0, 0.0, 1.0], [-1.0, 0.0, 0.0], [0.0, 0.0, -1.0]])
+            p["offset"] = w.choice([[8192.0, -4096.0, 2048.0], [16384.0, 0.0, 0.0], [-8192.0, 8192.0, 8192.0],
+                                    [1024.0, 1024.0, 1024.0]])
+            p["scale"] = w.choice([1.0 / 16, 1.0 / 64, 1.0 / 64])
         p["mc"] = kind == "two_arm" and w.chance(0.06)
         if kind == "chain":
             pool = [1, 2, 3, 3, 4, 5, 5, 6, 7, 8, 9, "low", "middle", "high"]
@@ -125,7 +135,7 @@ def generate(rng: Prng, tier: str) -> dict:
         else:
             pool = [1, 2, 3, 3, 4, "low"]
         p["levels"] = [w.choice(pool) for _ in range(1 if p["mc"] else w.randint(1, 3))]
-    p["api"] = w.choice(["get_volume", "get_volume", "feature"])
+    p["api"] = w.choice(["get_volume", "get_volume", "feature", "feature_shared", "feature_shared"])
     n_s = 1 if p["mc"] else rs.randint(2, 4)
     p["schedules"] = [{"kind": "seed", "seed": rs.below(2**31)}] + [gen_schedule(rs) for _ in range(n_s - 1)]
     p["config"] = "faulting" if any(s["kind"] != "seed" for s in p["schedules"]) else "fault_free"
@@ -140,7 +150,8 @@ def layout(program: dict):
     """-> (tree model dict with float32 values, axial positions s_i, edges) for collinear kinds.
 
     Spacing is widened (deterministically) until the configuration is admissible."""
-    r0 = program["r0"]
+    sc = program.get("scale", 1.0)
+    r0 = program["r0"] * sc
     axis = program["axis"]
     off = program["offset"]
     widen = 1.0
@@ -151,6 +162,7 @@ def layout(program: dict):
         for sign, arm in ((1.0, program["arm_a"]), (-1.0, program["arm_b"])):
             prev = 0
             for factor, rad in arm:
+                rad = rad * sc
                 gap = max(r[prev], rad) * factor * widen
                 s.append(s[prev] + sign * gap)
                 r.append(rad)
@@ -249,11 +261,16 @@ def install_schedule(world: World, s: dict, axis):
         world.rng_inject[base + k] = [float(x) for x in v]
 
 
-def call_volume(tree, level, api: str) -> float:
-    if api == "feature":
+def call_volume(tree, level, api: str, shared: dict) -> float:
+    if api in ("feature", "feature_shared"):
         from swcgeom.analysis import extract_feature
 
-        out = extract_feature(tree).get("volume", accuracy=level)
+        if api == "feature_shared":
+            # one extractor object asked again and again (other levels, other schedules): a history
+            ext = shared.setdefault("ext", extract_feature(tree))
+        else:
+            ext = extract_feature(tree)
+        out = ext.get("volume", accuracy=level)
         return float(np.asarray(out).reshape(-1)[0])
     from swcgeom.analysis import get_volume
 
@@ -280,6 +297,7 @@ def execute(program: dict) -> dict:
     with World() as world:
         try:
             tree = common.build_tree(t, source="gen")
+            shared: dict = {}
             for level in program["levels"]:
                 lv = LEVEL_NAMES.get(level, level)
                 if kind != "arbitrary" and lv >= 3:
@@ -295,7 +313,7 @@ def execute(program: dict) -> dict:
                     steps += 1
                     install_schedule(world, s, axis)
                     try:
-                        got = call_volume(tree, level, program["api"])
+                        got = call_volume(tree, level, program["api"], shared)
                     except Exception as e:  # noqa: BLE001
                         violation = {"tag": "raised", "op": f"level{lv}/{type(e).__name__}",
                                      "detail": f"{type(e).__name__}: {e}"[:300]}
@@ -360,6 +378,8 @@ def shrink_candidates(program: dict):
         yield shrink.with_value(program, ["axis"], [0.0, 0.0, 1.0])
     if program["offset"] != [0.0, 0.0, 0.0]:
         yield shrink.with_value(program, ["offset"], [0.0, 0.0, 0.0])
+    if program.get("scale", 1.0) != 1.0:
+        yield shrink.with_value(program, ["scale"], 1.0)
     if program["api"] != "get_volume":
         yield shrink.with_value(program, ["api"], "get_volume")
 
